@@ -383,7 +383,26 @@ func runRateRT(c *Case) string {
 			}
 		}
 	}()
-	sub := obs.Subscribe(rec.observer())
+	var final ro.Observer[rlItem] = rec.observer()
+	if st := c.get("stall", "-"); st != "-" {
+		// a consumer hiccup: the j-th delivered item blocks its callback for `us` microseconds (several windows). The limiter's
+		// clock cannot cut windows meanwhile (its ticks wait for the subscriber that is mid-delivery); what it does with the
+		// ticks it missed decides how many windows open right after the consumer resumes.
+		var j, us int
+		fmt.Sscanf(st, "%d:%d", &j, &us)
+		inner := final
+		seen := 0
+		final = ro.NewObserver(
+			func(v rlItem) {
+				inner.Next(v)
+				seen++
+				if seen == j {
+					time.Sleep(time.Duration(us) * time.Microsecond)
+				}
+			},
+			inner.Error, inner.Complete)
+	}
+	sub := obs.Subscribe(final)
 	if !src.sync {
 		go src.playNow()
 	}
@@ -712,6 +731,23 @@ func genRate(tier string, seed int64, only string) []*Case {
 				mode = "async"
 			}
 			emit("op", "native-rt", "profile", profile, "n", strconv.Itoa(n), "w", strconv.Itoa(w), "slack", "0", "mode", mode, "end", end, "tl", tlString(tl, true))
+		}
+		// a consumer that blocks for several windows in the middle of a dense single-key stream
+		nst := 4
+		if thorough {
+			nst = 24
+		}
+		for i := 0; i < nst; i++ {
+			// the hiccup lasts ~100 windows; the producer keeps offering items as fast as it can afterwards (the timeline is on
+			// an absolute schedule, so everything due during the hiccup is offered back to back once the consumer resumes)
+			w := 2000 + 500*r.Intn(3)
+			var tl []rlEv
+			for id := 1; id <= 3000; id++ {
+				tl = append(tl, rlEv{k: 0, v: id, gap: 20 + r.Intn(20)})
+			}
+			mode := []string{"sync", "async"}[i%2]
+			emit("op", "native-rt", "profile", "stall", "n", "1", "w", strconv.Itoa(w), "slack", "0", "mode", mode, "end", "C",
+				"stall", fmt.Sprintf("%d:%d", 2+r.Intn(2), (90+r.Intn(30))*w), "tl", tlString(tl, true))
 		}
 	}
 	return cases
